@@ -62,6 +62,12 @@ func (c14) Plan(tier string, seed int64) []core.Scenario {
 		out = append(out, core.Sc("slowpeer").WithN("mb", 24).WithN("rep", i))
 		out = append(out, core.Sc("close-busy").WithN("mb", 24).WithN("rep", i))
 	}
+	for i := 0; i < 3; i++ {
+		// late answers of client-side handlers that belong to a connection that has been replaced
+		out = append(out, core.Sc("stale-reverse-answer").WithN("fk", i%2).WithN("old", 1+i).WithN("wire", 1))
+		// results encoding/json cannot encode next to ordinary ones
+		out = append(out, core.Sc("unencodable-result").WithN("workers", 8+8*i).WithN("rep", i))
+	}
 	for i := range out {
 		out[i].Seed = seed*160481183 + int64(i)
 		out[i] = out[i].WithN("noise", 1+i%2)
@@ -85,6 +91,10 @@ func (p c14) Run(sc core.Scenario) core.Result {
 		p.slowPeer(sc, r)
 	case "close-busy":
 		p.closeBusy(sc, r)
+	case "stale-reverse-answer":
+		c16{}.staleReverseAnswer(sc, r)
+	case "unencodable-result":
+		p.unencodableResult(sc, r)
 	}
 	return r.Result()
 }
@@ -478,4 +488,86 @@ func (c14) closeBusy(sc core.Scenario, r *core.R) {
 	r.Obs("large_client_messages_whole", int64(atomic.LoadInt32(&bigSeen)))
 	r.Sig(core.Log.Signature())
 	r.Sample(map[string]interface{}{"scenario": "client closed while its writer is in the middle of a 24 MiB reverse-call response", "closer_waited_ms": waited.Milliseconds(), "large_messages_seen_whole": atomic.LoadInt32(&bigSeen)})
+}
+
+// unencodableResult: concurrent calls on one ws connection whose handlers return small results, 20 kB
+// results and floats that encoding/json cannot encode (NaN, +Inf). Whatever the library does about the
+// latter (it may leave those calls unanswered), every message on the wire is a whole JSON-RPC message and
+// the ordinary calls get their answers.
+func (c14) unencodableResult(sc core.Scenario, r *core.R) {
+	env := NewEnv(EnvOpt{})
+	defer env.Shutdown()
+	defer noisePolicy(sc).Install()()
+	c, err := env.NewClient(ClientOpt{})
+	if err != nil {
+		r.Inconclusive("client: %v", err)
+		return
+	}
+	n := sc.I("workers")
+	var outs []*Outcome
+	var bads []*Outcome
+	bg := context.Background()
+	for i := 0; i < n; i++ {
+		i := i
+		switch i % 4 {
+		case 0:
+			t := Tok("e")
+			outs = append(outs, Go(t, func() (string, error) { return c.Echo(bg, t, "") }))
+		case 1:
+			t := Tok("b")
+			outs = append(outs, Go(t, func() (string, error) { return c.Big(bg, t, 20000) }))
+		case 2:
+			t := Tok("f")
+			outs = append(outs, Go(t, func() (string, error) {
+				v, err := c.Num(bg, t, 0)
+				if err == nil && v != float64(len(t))+0.5 {
+					return "", fmt.Errorf("wrong number %v", v)
+				}
+				return svc.Reply(t), err
+			}))
+		case 3:
+			t := Tok("x")
+			ctx, cancel := context.WithTimeout(bg, 1500*time.Millisecond)
+			bads = append(bads, Go(t, func() (string, error) {
+				defer cancel()
+				v, err := c.Num(ctx, t, 1+i%2)
+				if err == nil {
+					return fmt.Sprint(v), nil
+				}
+				return "", err
+			}))
+		}
+	}
+	for _, o := range outs {
+		if !o.Wait(core.Grace) {
+			r.Violate("sibling-hang:unencodable", "call %s next to calls with unencodable results never returned", o.Tok)
+		} else if o.Err != nil || !strings.HasPrefix(o.Val, svc.Reply(o.Tok)) {
+			r.Violate("sibling-failed:unencodable", "call %s next to calls with unencodable results returned (%q, %v)", o.Tok, core.Trunc(o.Val, 40), o.Err)
+		}
+	}
+	// the calls with unencodable results are not judged: NaN/Inf are outside what the properties promise (on
+	// the pinned tree such a call is never answered and does not return even when its context ends); only
+	// what they do to the wire and to their siblings is
+	unanswered := 0
+	for _, o := range bads {
+		if !o.Wait(100 * time.Millisecond) {
+			unanswered++
+		}
+	}
+	r.Obs("unencodable_calls_unanswered", int64(unanswered))
+	pt := Tok("p")
+	po := Go(pt, func() (string, error) { return c.Echo(bg, pt, "") })
+	if !po.Wait(core.Grace) || po.Err != nil {
+		r.Violate("sibling-failed:unencodable", "a call after the unencodable results failed (returned=%v err=%v)", po.Returned(), po.Err)
+	}
+	for _, e := range env.Px.ProtoErrors() {
+		r.Violate("frame-corrupt:unencodable", "%s", e)
+	}
+	for _, e := range env.Px.TornFrames() {
+		r.Violate("frame-torn:unencodable", "%s", e)
+	}
+	r.Key(fmt.Sprintf("unencodable-result workers=%d", n), true)
+	r.Obs("frames_validated", int64(len(env.Px.Frames())))
+	r.Sig(core.Log.Signature())
+	r.Sample(map[string]interface{}{"scenario": "unencodable results among concurrent calls", "calls": n, "frames_validated": len(env.Px.Frames())})
 }
